@@ -165,6 +165,8 @@ static void sig_handler(void)
 	if ((after & URCU_GP_CTR_NEST_MASK_ALL) != (before & URCU_GP_CTR_NEST_MASK_ALL) || rcu_read_ongoing() != ongoing_before
 	    || ((before & URCU_GP_CTR_NEST_MASK_ALL) && after != before))
 		vrt_fail("ORACLE signal handler changed the interrupted thread's reader state (ctr %lx -> %lx)", before, after);
+	if (!!ongoing_before != !!(before & URCU_GP_CTR_NEST_MASK_ALL))
+		vrt_fail("ORACLE rcu_read_ongoing() = %d disagrees with the reader's nesting count (ctr %lx)", ongoing_before, before);
 	vrt_log("\"op\":\"ret\",\"r\":\"sig\"");
 }
 
